@@ -386,3 +386,379 @@ pub fn c04_wrap_sweep(seed: u64, rep: &mut Report) {
         }
     }
 }
+
+// ---------------------------------------------------------------------------
+// C08: buffer pool, 16-bit tail wrap marathon (single thread).
+
+pub fn c08_wrap_marathon(seed: u64, index: u64, cycles: u64, rep: &mut Report) {
+    use a10::io::{ReadBuf, ReadBufPool};
+    let mut rng = Rng::derive(seed, 0xC08A, index);
+    let pool_size = *rng.pick(&[1u16, 2, 4]);
+    simk::reset(seed ^ index);
+    alloc::CONSUMER_PHASE_HOLDS.store(false, Ordering::SeqCst);
+    let mut ring = alloc::a10(|| Ring::config().with_submission_queue_size(4).build()).expect("ring");
+    let sq = ring.sq();
+    let ring_fd = simk::k().only_ring_fd();
+    let raw = fds::issue("world-fd");
+    let afd = unsafe { AsyncFd::from_raw_fd(raw, sq.clone()) };
+    let fdref: &'static AsyncFd = unsafe { &*std::ptr::from_ref(&afd) };
+    let pool = alloc::a10(|| ReadBufPool::new(sq.clone(), pool_size, 8)).expect("pool");
+    let shared = Shared::default();
+    let (waker, _ws) = new_waker();
+    let mut cx = Context::from_waker(&waker);
+    let mut held: std::collections::VecDeque<(ReadBuf, Vec<u8>)> = std::collections::VecDeque::new();
+    let mut done = 0u64;
+    'outer: for i in 0..cycles {
+        let mut op = alloc::a10(|| fut_op(fdref.read(pool.get()), |r: std::io::Result<ReadBuf>| match r {
+            Ok(b) => {
+                let mut o = Outcome::ok(b.len() as i64);
+                o.rbufs.push(b);
+                o
+            }
+            Err(e) => Outcome::err(&e),
+        }));
+        let _ = alloc::a10(|| op.poll(&mut cx));
+        let _ = alloc::consumer(|| ring.poll(Some(Duration::ZERO)));
+        let ids = simk::k().inflight_of(ring_fd);
+        let Some(id) = ids.last().copied() else {
+            shared.violation("C08", "marathon:read-not-submitted", format!("cycle {i}: pool read did not reach the kernel"));
+            break;
+        };
+        let n = 1 + (i % 8) as i32;
+        {
+            let mut k = simk::k();
+            effects::complete(&mut k, id, n, false);
+        }
+        let _ = alloc::consumer(|| ring.poll(Some(Duration::ZERO)));
+        match alloc::a10(|| op.poll(&mut cx)) {
+            Poll::Ready(mut o) => match o.res {
+                Ok(len) => {
+                    let b = o.rbufs.pop().unwrap();
+                    let produced = simk::k().req(id).produced.last().cloned().unwrap_or_default();
+                    if len != i64::from(n) || b.as_slice() != &produced[..] {
+                        shared.violation("C08", "marathon:wrong-data", format!("cycle {i}: buffer holds {len} bytes, kernel wrote {}", produced.len()));
+                        break 'outer;
+                    }
+                    held.push_back((b, produced));
+                }
+                Err(e) => {
+                    shared.violation("C08", "marathon:read-failed", format!("cycle {i} (pool of {pool_size}, {} buffers held): read failed with errno {e}", held.len()));
+                    break 'outer;
+                }
+            },
+            Poll::Pending => {
+                shared.violation("C08", "marathon:read-pending", format!("cycle {i}: read did not resolve"));
+                break;
+            }
+        }
+        alloc::a10(|| drop(op));
+        // Keep up to pool_size - 1 buffers alive, check the oldest before giving it back.
+        while held.len() as u16 >= pool_size {
+            let (b, want) = held.pop_front().unwrap();
+            if b.as_slice() != &want[..] {
+                shared.violation("C08", "pool-buffer-overwritten-while-owned", format!("cycle {i}: a held ReadBuf changed"));
+                break 'outer;
+            }
+            alloc::a10(|| drop(b));
+        }
+        done += 1;
+        // Keep the request table small.
+        if i % 4096 == 0 {
+            simk::k().reqs.retain(|_, r| r.state != ReqState::Done);
+        }
+    }
+    let khead = {
+        let k = simk::k();
+        k.rings[&ring_fd].pbufs.values().next().map(|p| p.khead).unwrap_or(0)
+    };
+    alloc::a10(|| drop(held));
+    alloc::a10(|| drop(pool));
+    alloc::a10(|| drop(afd));
+    alloc::consumer(|| drop(ring));
+    drop(sq);
+    simk::k().sync_fd_events();
+    alloc::CONSUMER_PHASE_HOLDS.store(true, Ordering::SeqCst);
+    rep.count("marathon_cycles", done);
+    rep.count("marathon_tail_wraps", done / 65536);
+    rep.cell(format!("marathon:pool={pool_size}"));
+    let _ = khead;
+    let sig = fnv(index, &[pool_size as u8, 0xAA]);
+    finish(rep, "c08wrap", seed, index, &shared, sig, done > 65536, format!("marathon pool={pool_size} cycles={done} tail-wraps={}", done / 65536));
+}
+
+// ---------------------------------------------------------------------------
+// C08: concurrent releases from several threads with the kernel looking at the
+// buffer ring at every scheduling point.
+
+pub fn c08_release_schedule(seed: u64, index: u64, rep: &mut Report) {
+    use a10::io::{ReadBuf, ReadBufPool};
+    let mut rng = Rng::derive(seed, 0xC08B, index);
+    let pool_size = *rng.pick(&[1u16, 2, 4, 8]);
+    let rounds = 1 + rng.below(3);
+    simk::reset(seed ^ index);
+    alloc::CONSUMER_PHASE_HOLDS.store(false, Ordering::SeqCst);
+    let mut ring = alloc::a10(|| Ring::config().with_submission_queue_size(8).build()).expect("ring");
+    let sq = ring.sq();
+    let ring_fd = simk::k().only_ring_fd();
+    let raw = fds::issue("world-fd");
+    let afd = unsafe { AsyncFd::from_raw_fd(raw, sq.clone()) };
+    let fdref: &'static AsyncFd = unsafe { &*std::ptr::from_ref(&afd) };
+    let pool = alloc::a10(|| ReadBufPool::new(sq.clone(), pool_size, 16)).expect("pool");
+    let shared = Arc::new(Shared::default());
+    let (waker, _ws) = new_waker();
+    let mut total_switches = 0;
+    let mut trace_hash = 0;
+    // Pre-cycle the ring a random number of times so that slot 0 is reused.
+    let pre = rng.below(2 * u64::from(pool_size) + 1);
+    for round in 0..(rounds + pre) {
+        let mut cx = Context::from_waker(&waker);
+        // Fill: take every buffer of the pool.
+        let mut bufs: Vec<ReadBuf> = Vec::new();
+        for _ in 0..pool_size {
+            let mut op = alloc::a10(|| fut_op(fdref.read(pool.get()), |r: std::io::Result<ReadBuf>| match r {
+                Ok(b) => {
+                    let mut o = Outcome::ok(b.len() as i64);
+                    o.rbufs.push(b);
+                    o
+                }
+                Err(e) => Outcome::err(&e),
+            }));
+            let _ = alloc::a10(|| op.poll(&mut cx));
+            let _ = alloc::consumer(|| ring.poll(Some(Duration::ZERO)));
+            let id = simk::k().inflight_of(ring_fd).last().copied();
+            if let Some(id) = id {
+                let mut k = simk::k();
+                effects::complete(&mut k, id, 9, false);
+            }
+            let _ = alloc::consumer(|| ring.poll(Some(Duration::ZERO)));
+            if let Poll::Ready(mut o) = alloc::a10(|| op.poll(&mut cx)) {
+                match o.rbufs.pop() {
+                    Some(b) => bufs.push(b),
+                    None => shared.violation("C08", "pool-exhausted-unexpectedly", format!("round {round}: read {} of {pool_size} failed with {}", bufs.len(), o.brief())),
+                }
+            }
+            alloc::a10(|| drop(op));
+        }
+        if round < pre {
+            // Sequential release.
+            alloc::a10(|| drop(bufs));
+            continue;
+        }
+        // Concurrent release, the kernel auditing the ring whenever it runs.
+        let nthreads = (2 + rng.below(3) as usize).min(bufs.len().max(1));
+        let mut per: Vec<Vec<ReadBuf>> = (0..nthreads).map(|_| Vec::new()).collect();
+        for (i, b) in bufs.into_iter().enumerate() {
+            per[i % nthreads].push(b);
+        }
+        let done = Arc::new(AtomicUsize::new(0));
+        let mut threads: Vec<Box<dyn FnOnce() + Send>> = Vec::new();
+        for mine in per {
+            let done = done.clone();
+            threads.push(Box::new(move || {
+                for b in mine {
+                    sched::point(sched::P_API);
+                    alloc::a10(|| drop(b));
+                }
+                done.fetch_add(1, Ordering::SeqCst);
+            }));
+        }
+        {
+            let done = done.clone();
+            threads.push(Box::new(move || {
+                let mut n = 0;
+                while done.load(Ordering::SeqCst) < nthreads && n < 10_000 {
+                    sched::point(sched::P_KTHREAD);
+                    {
+                        let mut k = simk::k();
+                        let fd = k.only_ring_fd();
+                        let groups: Vec<u16> = k.rings[&fd].pbufs.keys().copied().collect();
+                        for g in groups {
+                            effects::pbuf_audit(&mut k, fd, g);
+                        }
+                    }
+                    n += 1;
+                    sched::yield_now();
+                }
+            }));
+        }
+        let policy = policy_for(&mut rng);
+        let stats = sched::run(threads, rng.next(), policy, 200_000);
+        total_switches += stats.switches;
+        trace_hash = fnv(trace_hash ^ stats.trace_hash, &[round as u8]);
+        // All buffers must be the kernel's again.
+        {
+            let mut k = simk::k();
+            let groups: Vec<u16> = k.rings[&ring_fd].pbufs.keys().copied().collect();
+            for g in groups {
+                effects::pbuf_audit(&mut k, ring_fd, g);
+                let lost = k.rings[&ring_fd].pbufs[&g].handed_out.len();
+                if lost != 0 {
+                    drop(k);
+                    shared.violation("C08", "pool-buffer-lost:concurrent-release", format!("round {round}: {lost} of {pool_size} buffers did not return to the kernel after concurrent release from {nthreads} threads"));
+                    break;
+                }
+            }
+        }
+    }
+    alloc::a10(|| drop(pool));
+    alloc::a10(|| drop(afd));
+    alloc::consumer(|| drop(ring));
+    drop(sq);
+    simk::k().sync_fd_events();
+    alloc::CONSUMER_PHASE_HOLDS.store(true, Ordering::SeqCst);
+    rep.cell(format!("release:pool={pool_size}"));
+    rep.count("sched_switches", total_switches);
+    let sig = fnv(trace_hash, &[pool_size as u8, rounds as u8, pre as u8]);
+    finish(rep, "c08mt", seed, index, &shared, sig, total_switches >= 2, format!("concurrent-release pool={pool_size} rounds={rounds} pre-cycles={pre} switches={total_switches}"));
+}
+
+// ---------------------------------------------------------------------------
+// C11: SubmissionQueue::wake never loses a wake-up.
+
+pub fn c11_schedule(seed: u64, index: u64, rep: &mut Report) {
+    let mut rng = Rng::derive(seed, 0xC11, index);
+    let ring_type = *rng.pick(&["default", "default", "kernel-thread", "single-issuer"]);
+    let family = *rng.pick(&["S1-concurrent", "S1-concurrent", "S2-wake-before-poll", "S3-poll-loop"]);
+    let nwakers = 1 + rng.below(3) as usize;
+    let sq_size = *rng.pick(&[1u32, 2, 8]);
+    let fill_queue = ring_type == "default" && rng.chance(1, 3);
+    simk::reset(seed ^ index);
+    alloc::CONSUMER_PHASE_HOLDS.store(false, Ordering::SeqCst);
+    {
+        let mut k = simk::k();
+        k.knobs.layout_seed = rng.next() | 1;
+        k.knobs.sq_start = if rng.chance(1, 3) { 0u32.wrapping_sub(rng.below(4) as u32) } else { 0 };
+    }
+    let mut cfg = Ring::config().with_submission_queue_size(sq_size);
+    match ring_type {
+        "kernel-thread" => cfg = cfg.with_kernel_thread(),
+        "single-issuer" => cfg = cfg.single_issuer(),
+        _ => {}
+    }
+    let mut ring = alloc::a10(|| cfg.build()).expect("ring");
+    let sq = ring.sq();
+    let ring_fd = simk::k().only_ring_fd();
+    let shared = Arc::new(Shared::default());
+    let raw = fds::issue("world-fd");
+    let afd: &'static AsyncFd = Box::leak(Box::new(unsafe { AsyncFd::from_raw_fd(raw, sq.clone()) }));
+    // Optionally fill the submission queue with submissions nobody entered yet,
+    // so that the wake-up message has to wait for room.
+    let mut parked: Vec<Box<dyn DynOp>> = Vec::new();
+    if fill_queue {
+        let (waker, _) = new_waker();
+        let mut cx = Context::from_waker(&waker);
+        for j in 0..sq_size {
+            let mut op = alloc::a10(|| fut_op(afd.read(Vec::with_capacity(8)).from(900 + u64::from(j)), |r: std::io::Result<Vec<u8>>| match r {
+                Ok(v) => Outcome::ok(v.len() as i64),
+                Err(e) => Outcome::err(&e),
+            }));
+            let _ = alloc::a10(|| op.poll(&mut cx));
+            parked.push(op);
+        }
+    }
+    let polls_wanted: u64 = if family == "S3-poll-loop" { 2 + rng.below(3) } else { 1 };
+    let polls_done = Arc::new(AtomicU64::new(0));
+    if family == "S2-wake-before-poll" {
+        for _ in 0..nwakers {
+            let s = sq.clone();
+            alloc::a10(|| s.wake());
+        }
+    }
+    let mut threads: Vec<Box<dyn FnOnce() + Send>> = Vec::new();
+    {
+        let polls_done = polls_done.clone();
+        threads.push(Box::new(move || {
+            for _ in 0..polls_wanted {
+                sched::point(sched::P_API);
+                let _ = alloc::consumer(|| ring.poll(None));
+                polls_done.fetch_add(1, Ordering::SeqCst);
+            }
+            // Completions for the parked operations are irrelevant here.
+            alloc::consumer(|| drop(ring));
+        }));
+    }
+    if family != "S2-wake-before-poll" {
+        for w in 0..nwakers {
+            let s = sq.clone();
+            let polls_done = polls_done.clone();
+            threads.push(Box::new(move || {
+                let my_wakes: Vec<u64> = if family == "S3-poll-loop" {
+                    // Wake i+1 is only issued after poll i returned.
+                    (0..polls_wanted).filter(|i| (*i as usize) % nwakers == w).collect()
+                } else {
+                    vec![0]
+                };
+                for i in my_wakes {
+                    if family == "S3-poll-loop" {
+                        let pd = polls_done.clone();
+                        if !sched::wait_until(move || pd.load(Ordering::SeqCst) >= i) {
+                            return;
+                        }
+                    }
+                    sched::point(sched::P_API);
+                    alloc::a10(|| s.wake());
+                }
+            }));
+        }
+    }
+    if ring_type == "kernel-thread" {
+        let polls_done = polls_done.clone();
+        threads.push(Box::new(move || {
+            let mut n = 0;
+            while polls_done.load(Ordering::SeqCst) < polls_wanted && n < 20_000 && !sched::aborted() {
+                sched::point(sched::P_KTHREAD);
+                {
+                    let mut k = simk::k();
+                    simk::enter::sqpoll_run(&mut k);
+                }
+                n += 1;
+                sched::yield_now();
+            }
+        }));
+    }
+    let policy = policy_for(&mut rng);
+    let stats = sched::run(threads, rng.next(), policy, 200_000);
+    // A poll that could never return is a lost wake-up.
+    let kv = simk::k().take_violations();
+    for v in kv {
+        if v.prop == "BLOCK" {
+            shared.violation("C11", format!("lost-wakeup:poll-blocked-forever:{family}:{ring_type}"), format!("Ring::poll(None) blocked in the kernel with nothing to deliver after every wake() call had returned ({nwakers} waker thread(s), queue full at wake: {fill_queue})"));
+        } else {
+            shared.violation(v.prop, v.sig, v.detail);
+        }
+    }
+    if polls_done.load(Ordering::SeqCst) < polls_wanted && !stats.budget_exhausted {
+        shared.violation("C11", format!("lost-wakeup:poll-never-returned:{family}:{ring_type}"), format!("{} of {polls_wanted} Ring::poll calls returned", polls_done.load(Ordering::SeqCst)));
+    }
+    // Waking after the ring is gone must be harmless.
+    {
+        let s = sq.clone();
+        alloc::a10(|| s.wake());
+        alloc::a10(|| s.wake());
+        rep.cell("wake-after-ring-dropped");
+    }
+    for m in crate::mon::logsink::take() {
+        if m.contains("failed to wake") {
+            shared.violation("C11", format!("wake-failed:{ring_type}"), m);
+        }
+    }
+    alloc::a10(|| drop(parked));
+    unsafe { drop(Box::from_raw(std::ptr::from_ref(afd).cast_mut())) };
+    drop(sq);
+    simk::k().sync_fd_events();
+    alloc::CONSUMER_PHASE_HOLDS.store(true, Ordering::SeqCst);
+    if stats.budget_exhausted {
+        rep.count("schedules_budget_exhausted", 1);
+    }
+    rep.count("sched_switches", stats.switches);
+    rep.count("sched_kernel_blocks", stats.kernel_blocks);
+    rep.cell(format!("family:{family}"));
+    rep.cell(format!("ring:{ring_type}"));
+    rep.cell(format!("wakers:{nwakers}"));
+    if fill_queue {
+        rep.cell("queue-full-at-wake");
+    }
+    let _ = ring_fd;
+    let sig = fnv(stats.trace_hash, format!("{family}{ring_type}{nwakers}{fill_queue}").as_bytes());
+    finish(rep, "c11", seed, index, &shared, sig, stats.switches >= 1 || family == "S2-wake-before-poll", format!("{family} ring={ring_type} wakers={nwakers} sq={sq_size} queue-full={fill_queue} polls={polls_wanted} switches={} kernel-blocks={}", stats.switches, stats.kernel_blocks));
+}
